@@ -26,7 +26,11 @@ use itertools::Itertools;
 
 use ironcalc_base::{
     expressions::{
-        parser::{static_analysis::StaticResult, stringify::to_excel_string, Node},
+        parser::{
+            static_analysis::StaticResult,
+            stringify::{to_excel_array_string, to_excel_string},
+            Node,
+        },
         types::CellReferenceRC,
         utils::number_to_column,
     },
@@ -151,14 +155,19 @@ fn get_formula_attribute(
     row: i32,
     column: i32,
     parsed_formula: &Node,
+    is_array_formula: bool,
 ) -> String {
     let cell_ref = CellReferenceRC {
         sheet: sheet_name,
         row,
         column,
     };
-    let formula = &to_excel_string(parsed_formula, &cell_ref);
-    escape_xml(formula).to_string()
+    let formula = if is_array_formula {
+        to_excel_array_string(parsed_formula, &cell_ref)
+    } else {
+        to_excel_string(parsed_formula, &cell_ref)
+    };
+    escape_xml(&formula).to_string()
 }
 
 pub(crate) fn get_worksheet_xml(
@@ -298,6 +307,7 @@ pub(crate) fn get_worksheet_xml(
                         *row_index,
                         *column_index,
                         &parsed_formulas[*f as usize].0,
+                        false,
                     );
                     let b = i32::from(*v);
                     row_data_str.push(format!(
@@ -319,6 +329,7 @@ pub(crate) fn get_worksheet_xml(
                         *row_index,
                         *column_index,
                         &parsed_formulas[*f as usize].0,
+                        false,
                     );
                     let style = get_cell_style_attribute(*s);
                     row_data_str.push(format!(
@@ -339,6 +350,7 @@ pub(crate) fn get_worksheet_xml(
                         *row_index,
                         *column_index,
                         &parsed_formulas[*f as usize].0,
+                        false,
                     );
                     let style = get_cell_style_attribute(*s);
                     let escaped_v = escape_xml(v);
@@ -360,6 +372,7 @@ pub(crate) fn get_worksheet_xml(
                         *row_index,
                         *column_index,
                         &parsed_formulas[*f as usize].0,
+                        false,
                     );
                     let style = get_cell_style_attribute(*s);
                     row_data_str.push(format!(
@@ -406,6 +419,7 @@ pub(crate) fn get_worksheet_xml(
                         *row_index,
                         *column_index,
                         &node.0,
+                        true,
                     );
                     let style = get_cell_style_attribute(*s);
                     let range = match get_range_str(*row_index, *column_index, r.0, r.1) {
@@ -446,6 +460,7 @@ pub(crate) fn get_worksheet_xml(
                         *row_index,
                         *column_index,
                         &node.0,
+                        true,
                     );
                     let style = get_cell_style_attribute(*s);
                     let range = match get_range_str(*row_index, *column_index, r.0, r.1) {
@@ -485,6 +500,7 @@ pub(crate) fn get_worksheet_xml(
                         *row_index,
                         *column_index,
                         &node.0,
+                        true,
                     );
                     let style = get_cell_style_attribute(*s);
                     let range = match get_range_str(*row_index, *column_index, r.0, r.1) {
@@ -525,6 +541,7 @@ pub(crate) fn get_worksheet_xml(
                         *row_index,
                         *column_index,
                         &node.0,
+                        true,
                     );
                     let style = get_cell_style_attribute(*s);
                     let range = match get_range_str(*row_index, *column_index, r.0, r.1) {
